@@ -7,11 +7,15 @@ META = {
     "technique": "Coq theorems over the executable model of tmstate.StateMachine with the real in-memory action store semantics; "
                  "correspondence with the REAL state machine (recording signer wrapper, recording action store, restarts on the same stores); "
                  "boolean monitors on the implementation's observations",
-    "level": "Partial. Proved (all states, all events): signatures/saves refer to the current round and are made only for the strategy's "
-             "answer; a vote is emitted only after the successful save of the same vote (record_prevote_order). Refuted and reproduced on the "
-             "code (known finding restart-resigns-then-halts): across a restart the signer is invoked a second time for the same height/round "
-             "before the action store refuses. One signature per kind per round within one process lifetime and never a second EMISSION "
-             "across restarts are decided by monitors on the correspondence runs, not by a theorem.",
+    "level": "P/partial. Proved over ALL event histories from the initial state, restarts on the same stores included "
+             "(inductive invariant, Properties/C02Inv.v): at most one prevote and at most one precommit per (height, round) is ever "
+             "EMITTED (C02_one_emission_ever); every emitted vote was signed and saved in the same event, the action store holding none "
+             "of that kind for the round before and exactly that target after (C02_emitted_was_signed_and_saved); the action store only "
+             "grows. Per step (Properties/C02.v): signatures/saves refer to the current round and are made only for the strategy's answer. "
+             "Refuted and reproduced on the code (known finding restart-resigns-then-halts): across a restart the SIGNER is invoked a "
+             "second time for the same height/round before the action store refuses. Not proved (monitors on every run only): signer "
+             "invoked at most once per kind per round within one lifetime (fails only on round-counter wrap in the model), and the "
+             "proposal variants of the emission theorems.",
     "note": "Trusted: Coq kernel, harness/sm, the ed25519 signer and memstores are the real ones. Crash between save and emit is modelled as "
             "a restart event after a completed event only.",
     "design_ref": "DESIGN.md 4 (C08/C02), design/C08.md",
@@ -32,7 +36,7 @@ def main(argv):
     c.assumes += ["a restart happens between events (after the kernel became quiet), on the same three stores"]
     c.grep_gate()
     tok, binary = S.prepare(c)
-    proved = tok and c.prove("C02")
+    proved = tok and c.prove("C02") and c.prove("C02Inv")
     if binary is None:
         c.finish()
     n, steps = (48, 40) if c.tier == "quick" else (400, 60)
